@@ -635,6 +635,42 @@ fn run_history(out: &mut Out, cfg: &Cfg, ops: &[Op], dir: &str, n_shrunk: &mut u
     }
 }
 
+
+/// `Alpha<Color<Vec<T>>, Vec<A>>` with an alpha component type DIFFERENT from the colour's (f32 colour, u8 alpha): the collection methods
+/// are generic in `A`; random histories against `Vec<Alpha<Color<T>, A>>`.  Items are added with `extend` / `collect` only (the
+/// same-type configurations above drive `push` and `with_capacity`), so that this section depends on nothing but the methods it judges.
+macro_rules! mixed_alpha { ($out:expr, $rng:expr, $n_hist:expr, $name:expr, $soa:ty, $item:ty, $mk:expr, $lens:expr) => {{
+    let mk: fn(f32, u8) -> $item = $mk; let lens: fn(&$soa) -> Vec<usize> = $lens;
+    for _ in 0..$n_hist {
+        let mut next = 1u32;
+        let mut fresh = |n: usize| -> Vec<$item> { (0..n).map(|_| { next += 1; mk(next as f32 * 0.25, (next * 7 % 251) as u8) }).collect() };
+        let init = fresh($rng.below(6) as usize);
+        let mut v: Vec<$item> = init.clone(); let mut c: $soa = init.into_iter().collect();
+        let mut hist = vec![format!("collect {}", v.len())];
+        for _ in 0..(3 + $rng.below(12)) {
+            let op = $rng.below(6);
+            let (ov, oc): (String, String) = match op {
+                0 => { let xs = fresh($rng.below(4) as usize); hist.push(format!("extend {}", xs.len())); v.extend(xs.iter().cloned()); c.extend(xs.into_iter()); (String::new(), String::new()) }
+                1 => { hist.push("pop".into()); (format!("{:?}", v.pop()), format!("{:?}", c.pop())) }
+                2 => { hist.push("clear".into()); v.clear(); c.clear(); (String::new(), String::new()) }
+                3 => { let n = v.len(); let a = $rng.below(n as u64 + 2) as usize; let b = a + $rng.below(4) as usize; hist.push(format!("drain {}..{}", a, b));
+                       let rv = catch_unwind(AssertUnwindSafe(|| v.drain(a..b).collect::<Vec<_>>())); let rc = catch_unwind(AssertUnwindSafe(|| c.drain(a..b).collect::<Vec<_>>()));
+                       (format!("{:?}", rv.ok()), format!("{:?}", rc.ok())) }
+                4 => { let i = $rng.below(v.len() as u64 + 2) as usize; hist.push(format!("get {}", i)); (format!("{:?}", v.get(i).cloned()), format!("{:?}", c.get(i).map(|x| x.copied()))) }
+                // `iter()` / `into_iter()` are only offered when colour and alpha share the component type (for mixed types `.iter()` resolves
+                // through `Deref` to the colour's iterator and yields colours without alpha: an API observation, outside the forms offered);
+                // the whole contents are read through `get`, which is generic in the alpha type
+                _ => { hist.push("get-all".into()); let n = v.len(); (format!("{:?}", (0..n + 1).map(|i| v.get(i).cloned()).collect::<Vec<_>>()), format!("{:?}", (0..n + 1).map(|i| c.get(i).map(|x| x.copied())).collect::<Vec<_>>())) }
+            };
+            let l = lens(&c);
+            let ok = ov == oc && l.iter().all(|&x| x == v.len());
+            $out.check(ok, &format!("same-observations:mixed-alpha:{}", $name), || format!("history [{}]: Vec<Alpha<_, u8>> gives {} (len {}), struct-of-arrays gives {} (component lengths {:?})", hist.join("; "), ov, v.len(), oc, l));
+            if !ok { break; }
+        }
+        $out.count("cls:cfg:mixed-alpha");
+    }
+}} }
+
 pub fn run(tier: &str, seed: u64, dir: &str) {
     let mut out = Out::new("C18", dir);
     let _ = std::fs::remove_file(format!("{}/C18.shrunk", dir));
@@ -657,6 +693,16 @@ pub fn run(tier: &str, seed: u64, dir: &str) {
             let h = g.history(n);
             run_history(&mut out, cfg, &h, dir, &mut n_shrunk);
         }
+    }
+    // alpha component type different from the colour's
+    {
+        let n = if thorough { 20000 } else { 1500 };
+        mixed_alpha!(out, rng, n, "Hsl<f32>+u8", Alpha<Hsl<Srgb, Vec<f32>>, Vec<u8>>, Alpha<Hsl<Srgb, f32>, u8>,
+            |x, a| Alpha { color: Hsl::new_srgb(x * 10.0, x, x + 0.5), alpha: a }, |c| vec![c.color.hue.iter().len(), c.color.saturation.len(), c.color.lightness.len(), c.alpha.len()]);
+        mixed_alpha!(out, rng, n, "Rgb<f32>+u8", Alpha<Rgb<Srgb, Vec<f32>>, Vec<u8>>, Alpha<Rgb<Srgb, f32>, u8>,
+            |x, a| Alpha { color: Rgb::new(x, x + 0.25, x + 0.5), alpha: a }, |c| vec![c.color.red.len(), c.color.green.len(), c.color.blue.len(), c.alpha.len()]);
+        mixed_alpha!(out, rng, n, "Lch<f64>+f32", Alpha<Lch<D65, Vec<f64>>, Vec<f32>>, Alpha<Lch<D65, f64>, f32>,
+            |x, a| Alpha { color: Lch::new(x as f64, x as f64 + 1.0, x as f64 * 3.0), alpha: a as f32 / 255.0 }, |c| vec![c.color.l.len(), c.color.chroma.len(), c.color.hue.iter().len(), c.alpha.len()]);
     }
     // exhaustive bounded enumeration on a colour without and one with hue and alpha
     let depth = if thorough { 4 } else { 3 };
